@@ -58,6 +58,36 @@ Definition posted_rec (t : Q) (o : obs) : Prop :=
   | _ => True
   end.
 
+(* ------------------------------------------------------------------ event names are unambiguous *)
+Lemma index_events_In : forall pi j0 evs pi' j ev,
+  In (pi', j, ev) (index_events pi j0 evs) <-> pi' = pi /\ (j0 <= j)%nat /\ nth_error evs (j - j0) = Some ev.
+Proof.
+  intros pi j0 evs; revert j0. induction evs as [|e evs IH]; intros j0 pi' j ev; cbn [index_events In].
+  - split; [tauto|]. intros (_ & _ & H). destruct (j - j0)%nat; discriminate.
+  - rewrite IH. split.
+    + intros [E|(E1 & E2 & E3)].
+      * inversion E; subst. rewrite Nat.sub_diag. split; [reflexivity|]. split; [lia | reflexivity].
+      * split; [exact E1|]. split; [lia|]. replace (j - j0)%nat with (S (j - S j0)) by lia. exact E3.
+    + intros (E1 & E2 & E3). destruct (Nat.eq_dec j j0) as [->|Hne].
+      * left. rewrite Nat.sub_diag in E3. inversion E3; subst; reflexivity.
+      * right. split; [exact E1|]. split; [lia|]. replace (j - j0)%nat with (S (j - S j0)) in E3 by lia. exact E3.
+Qed.
+
+Lemma all_events_from_In : forall ps pi0 pi j ev,
+  In (pi, j, ev) (all_events_from pi0 ps) <->
+  (pi0 <= pi)%nat /\ exists p, nth_error ps (pi - pi0) = Some p /\ nth_error (p_events p) j = Some ev.
+Proof.
+  induction ps as [|p ps IH]; intros pi0 pi j ev; cbn [all_events_from].
+  - split; [intros []|]. intros (_ & q & H & _). destruct (pi - pi0)%nat; discriminate.
+  - rewrite in_app_iff, index_events_In, IH, Nat.sub_0_r. split.
+    + intros [(E1 & _ & E3)|(E1 & q & E2 & E3)].
+      * subst. split; [lia|]. exists p. rewrite Nat.sub_diag. split; [reflexivity | exact E3].
+      * split; [lia|]. exists q. replace (pi - pi0)%nat with (S (pi - S pi0)) by lia. split; assumption.
+    + intros (E1 & q & E2 & E3). destruct (Nat.eq_dec pi pi0) as [->|Hne].
+      * left. rewrite Nat.sub_diag in E2. inversion E2; subst. split; [reflexivity|]. split; [lia | exact E3].
+      * right. split; [lia|]. exists q. replace (pi - pi0)%nat with (S (pi - S pi0)) in E2 by lia. split; assumption.
+Qed.
+
 Section KM.
 Context {W : Type}.
 Notation st := (st W).
@@ -187,6 +217,60 @@ Proof.
     + apply (ext_trans _ _ s3); [|exact E4].
       apply (ext_trans _ _ (fire tb h s1)); [apply (ext_trans _ _ s1); [apply ext_same_out; reflexivity | exact E2]|].
       apply ext_emit. simpl. split; [eexists; reflexivity | exact Hle].
+Qed.
+
+(* the number returned by runPendingEvents is the number of posted handlers it called *)
+Definition is_posted (o : obs) : bool := match o with OHandler _ _ _ _ None => true | _ => false end.
+Definition nposted (l : list obs) : nat := length (filter is_posted l).
+
+Lemma nposted_act : forall l, Forall act_obs l -> nposted l = 0%nat.
+Proof.
+  unfold nposted. induction 1 as [|o l Ho _ IH]; [reflexivity|].
+  simpl. destruct o; simpl in *; try exact IH; contradiction.
+Qed.
+
+Lemma nposted_app : forall a b, nposted (a ++ b) = (nposted a + nposted b)%nat.
+Proof. intros; unfold nposted; rewrite filter_app, app_length; reflexivity. Qed.
+
+Lemma fire_shape : forall x s, exists l, Forall act_obs l /\
+  out (fire tb x s) = l ++ OHandler (e_prog x) (e_time x) (clock s) (e_elem x) None :: out s.
+Proof.
+  intros x s. unfold fire. set (s1 := emit _ s).
+  destruct (run_prog_spec (e_proc x) (e_prog x) (e_time x) (e_elem x) s1) as [_ [l [E A]]].
+  set (s2 := run_prog _ _ _ _ _ _) in *.
+  destruct (e_rep x) as [ddt|]; [|exists l; split; [exact A | exact E]].
+  unfold post. destruct (Qltb _ _).
+  - exists (OValueError :: l). split; [constructor; [exact I | exact A]|]. cbn [emit out]. rewrite E. reflexivity.
+  - exists l. split; [exact A | exact E].
+Qed.
+
+Lemma run_pending_count : forall f t n s, exists l,
+  out (snd (run_pending tb f t n s)) = l ++ out s /\ Forall (posted_rec t) l /\
+  fst (run_pending tb f t n s) = (n + nposted l)%nat.
+Proof.
+  induction f as [|f IH]; intros t n s.
+  - exists []. simpl. split; [reflexivity|]. split; [constructor | unfold nposted; simpl; lia].
+  - cbn [run_pending].
+    destruct (head (queue (discard s))) as [h|];
+      [|exists []; simpl; split; [reflexivity|]; split; [constructor | unfold nposted; simpl; lia]].
+    destruct (Qle_bool (e_time h) t) eqn:Hle;
+      [|exists []; simpl; split; [reflexivity|]; split; [constructor | unfold nposted; simpl; lia]].
+    apply Qle_bool_iff in Hle.
+    set (s1 := set_clock _ _).
+    destruct (fire_shape h s1) as [lf [A Ef]].
+    set (s3 := emit _ (fire tb h s1)).
+    destruct (IH t (S n) s3) as [l' [E' [R' N']]].
+    exists (l' ++ OTap (e_time h) (e_proc h) (NPost (e_prog h)) (e_elem h) :: lf ++
+            [OHandler (e_prog h) (e_time h) (clock s1) (e_elem h) None]).
+    split; [|split].
+    + rewrite E'. unfold s3. cbn [emit out]. rewrite Ef. rewrite <- !app_assoc. cbn [app]. rewrite <- app_assoc. reflexivity.
+    + apply Forall_app; split; [exact R'|]. constructor; [simpl; split; [eexists; reflexivity | exact Hle]|].
+      apply Forall_app; split; [exact (Forall_impl _ (act_posted t) A)|].
+      repeat constructor. exact Hle.
+    + rewrite N'.
+      change (OTap (e_time h) (e_proc h) (NPost (e_prog h)) (e_elem h) :: lf ++ [OHandler (e_prog h) (e_time h) (clock s1) (e_elem h) None])
+        with ([OTap (e_time h) (e_proc h) (NPost (e_prog h)) (e_elem h)] ++ lf ++ [OHandler (e_prog h) (e_time h) (clock s1) (e_elem h) None]).
+      rewrite !nposted_app, (nposted_act lf A). unfold nposted; simpl. lia.
 Qed.
 
 (* ------------------------------------------------------------------ stochastic / per-element firing *)
@@ -375,5 +459,328 @@ Qed.
 
 Lemma sum_rates_qsum : forall (s : st) trs, sum_rates s trs == qsum (rate s) trs.
 Proof. intros s trs. unfold sum_rates. rewrite fold_qsum, Qplus_0_l. reflexivity. Qed.
+
+(* ------------------------------------------------------------------ stochastic dynamics *)
+(* One Gillespie iteration, in two named parts (stoch_loop_S ties them to the model).
+   Selection: r1, ln and, with more than one transition, r2 are consumed and a transition chosen. *)
+Definition stoch_select (s : st) : option ((nat * nat * event) * Q * st) :=
+  let trs := transitions tb in
+  let a := sum_rates s trs in
+  let '(_, s1) := next_rand s in
+  let '(ln, s2) := next_ln s1 in
+  let dt := Qred ((1 / a) * ln) in
+  match trs with
+  | [] => None
+  | x0 :: rest =>
+      let '(x, s3) := match rest with
+                      | [] => (x0, s2)
+                      | _ => let '(r2, s3) := next_rand s2 in (select (rate s) (r2 * a) 0 x0 trs, s3)
+                      end in
+      Some (x, dt, s3)
+  end.
+
+(* Firing: after the posted events ran and the clock was set; the live locus is read now. *)
+Definition stoch_fire (x : nat * nat * event) (nt : Q) (ev : nat) (s5 : st) : nat * st :=
+  let l := locus s5 (ev_locus (snd x)) in
+  match l with
+  | [] => (ev, s5)
+  | _ => let '(k, s6) := next_draw s5 in (S ev, fire_event tb x nt (nth (k mod length l) l (EN 0)) s6)
+  end.
+
+(* proc.atEquilibrium(t): the time limit, or the process' own test *)
+Definition at_equil (t : Q) (s : st) : bool := Qle_bool (t_maxtime tb) t || t_equil tb (loci s) (world s).
+
+Lemma stoch_loop_S : forall pf f t events s,
+  stoch_loop tb pf (S f) t events s =
+  if at_equil t s then (t, events, s)
+  else if Qeq_bool (sum_rates s (transitions tb)) 0 then
+    match next_pending_time s with
+    | (None, s') => (t, events, s')
+    | (Some et, s') => let '(n, s'') := run_pending tb pf et 0 s' in stoch_loop tb pf f et (events + n) s''
+    end
+  else
+    match stoch_select s with
+    | None => (t, events, set_stuck s)
+    | Some (x, dt, s3) =>
+        let nt := Qred (t + dt) in
+        let '(n, s4) := run_pending tb pf nt 0 s3 in
+        let '(ev', s6) := stoch_fire x nt (events + n) (set_clock nt s4) in
+        stoch_loop tb pf f nt ev' s6
+    end.
+Proof.
+  intros pf f t events s. cbn [stoch_loop]. unfold stoch_select, stoch_fire, at_equil.
+  destruct (Qle_bool (t_maxtime tb) t || t_equil tb (loci s) (world s)); [reflexivity|].
+  destruct (Qeq_bool (sum_rates s (transitions tb)) 0); [reflexivity|].
+  cbv zeta.
+  destruct (next_rand s) as [r1 s1]. destruct (next_ln s1) as [ln s2].
+  destruct (transitions tb) as [|x0 rest]; [reflexivity|].
+  destruct rest as [|x1 rest].
+  - destruct (run_pending tb pf _ 0 s2) as [n s4].
+    destruct (locus (set_clock _ s4) (ev_locus (snd x0))); [reflexivity|].
+    destruct (next_draw _) as [k s6]. reflexivity.
+  - destruct (next_rand s2) as [r2 s3].
+    destruct (run_pending tb pf _ 0 s3) as [n s4].
+    destruct (locus (set_clock _ s4) _); [reflexivity|].
+    destruct (next_draw _) as [k s6]. reflexivity.
+Qed.
+
+(* an event whose locus is empty when its turn comes is not fired: nothing is drawn, nothing recorded *)
+Lemma stoch_fire_empty : forall x nt ev s5,
+  locus s5 (ev_locus (snd x)) = [] -> stoch_fire x nt ev s5 = (ev, s5).
+Proof. intros x nt ev s5 H. unfold stoch_fire. rewrite H. reflexivity. Qed.
+
+(* otherwise one rank is drawn and the event is called on a member of the live locus *)
+Lemma stoch_fire_member : forall x nt ev s5, locus s5 (ev_locus (snd x)) <> [] ->
+  exists e, In e (locus s5 (ev_locus (snd x))) /\
+    stoch_fire x nt ev s5 = (S ev, fire_event tb x nt e (advance 0 0 1 s5)).
+Proof.
+  intros x nt ev s5 H. unfold stoch_fire. rewrite next_draw_adv.
+  exists (nth (hd 0%nat (draws s5) mod length (locus s5 (ev_locus (snd x)))) (locus s5 (ev_locus (snd x))) (EN 0)).
+  split; [apply nth_mod_In; exact H|].
+  destruct (locus s5 (ev_locus (snd x))); [congruence | reflexivity].
+Qed.
+
+(* -- hypotheses on tables and oracles that every run of the implementation satisfies *)
+Definition nonneg_table : Prop := forall x, In x (all_events tb) -> 0 <= ev_p (snd x).
+Definition unit_rand (r : Q) : Prop := 0 <= r /\ r < 1.
+
+(* (process, index) determines the event *)
+Lemma all_events_fun : forall pi j ev ev',
+  In (pi, j, ev) (all_events tb) -> In (pi, j, ev') (all_events tb) -> ev = ev'.
+Proof.
+  intros pi j ev ev' H H'. unfold all_events in *.
+  apply all_events_from_In in H. apply all_events_from_In in H'.
+  destruct H as (_ & p & E1 & E2). destruct H' as (_ & p' & E1' & E2'). congruence.
+Qed.
+
+Lemma In_transitions : forall x, In x (transitions tb) -> In x (all_events tb).
+Proof.
+  intros x H. unfold transitions in H. apply in_app_or in H.
+  destruct H as [H|H]; apply filter_In in H; exact (proj1 H).
+Qed.
+
+Lemma qlen_nonneg : forall l, 0 <= qlen l.
+Proof. intros l. unfold qlen. change 0 with (inject_Z 0). rewrite <- Zle_Qle. apply Nat2Z.is_nonneg. Qed.
+
+Lemma rate_nonneg : forall (s : st) x, 0 <= ev_p (snd x) -> 0 <= rate s x.
+Proof.
+  intros s x H. unfold rate. destruct (ev_elem (snd x)); [|exact H].
+  rewrite Qred_correct. apply Qmult_le_0_compat; [exact H | apply qlen_nonneg].
+Qed.
+
+Lemma rate_pos : forall (s : st) x, 0 < rate s x -> 0 < ev_p (snd x).
+Proof.
+  intros s x. unfold rate. destruct (ev_elem (snd x)); [|tauto].
+  rewrite Qred_correct. intros H.
+  destruct (Qlt_le_dec 0 (ev_p (snd x))) as [Hp|Hp]; [exact Hp|]. exfalso.
+  apply (Qlt_not_le _ _ H).
+  setoid_replace 0 with (0 * qlen (locus s (ev_locus (snd x)))) by ring.
+  apply Qmult_le_compat_r; [exact Hp | apply qlen_nonneg].
+Qed.
+
+Lemma qsum_nonneg : forall A (f : A -> Q) l, (forall x, In x l -> 0 <= f x) -> 0 <= qsum f l.
+Proof.
+  intros A f. induction l as [|x l IH]; intros H; cbn [qsum]; [apply Qle_refl|].
+  setoid_replace 0 with (0 + 0) by ring.
+  apply Qplus_le_compat; [apply H; left; reflexivity | apply IH; intros y Hy; apply H; right; exact Hy].
+Qed.
+
+(* the transition chosen has positive probability: zero-probability events are never selected *)
+Lemma stoch_select_pos : forall s x dt s3, nonneg_table -> Forall unit_rand (rands s) ->
+  Qeq_bool (sum_rates s (transitions tb)) 0 = false ->
+  stoch_select s = Some (x, dt, s3) ->
+  In x (all_events tb) /\ 0 < ev_p (snd x) /\ 0 < rate s x /\
+  exists nr, (nr <= 2)%nat /\ s3 = advance nr 1 0 s.
+Proof.
+  intros s x dt s3 Hnn Hr Ha. unfold stoch_select.
+  rewrite next_rand_adv, next_ln_adv, advance_advance. cbn [Nat.add].
+  assert (Hall : forall y, In y (transitions tb) -> 0 <= rate s y).
+  { intros y Hy. apply rate_nonneg, Hnn, In_transitions, Hy. }
+  assert (Hsum := sum_rates_qsum s (transitions tb)).
+  assert (Hapos : 0 < sum_rates s (transitions tb)).
+  { destruct (proj1 (Qle_lteq _ _) (qsum_nonneg _ _ _ Hall)) as [Hlt|Heq].
+    - rewrite Hsum; exact Hlt.
+    - exfalso. rewrite <- Hsum in Heq. symmetry in Heq. apply Qeq_bool_iff in Heq. congruence. }
+  destruct (transitions tb) as [|x0 rest] eqn:Etr; [discriminate|].
+  assert (Hpos : forall y, In y (x0 :: rest) -> 0 < rate s y -> In y (all_events tb) /\ 0 < ev_p (snd y) /\ 0 < rate s y).
+  { intros y Hy Hyp. split; [apply In_transitions; rewrite Etr; exact Hy|]. split; [exact (rate_pos s y Hyp) | exact Hyp]. }
+  destruct rest as [|x1 rest].
+  - intros E; inversion E; subst. 
+    assert (Hx : 0 < rate s x).
+    { cbn [qsum] in Hsum. rewrite Qplus_0_r in Hsum. rewrite <- Hsum. exact Hapos. }
+    destruct (Hpos x (or_introl eq_refl) Hx) as (h1 & h2 & h3).
+    repeat split; try assumption. exists 1%nat; split; [lia | reflexivity].
+  - rewrite next_rand_adv, advance_advance. cbn [Nat.add].
+    intros E; inversion E; subst. clear E.
+    set (a := sum_rates s (x0 :: x1 :: rest)) in *.
+    assert (Hr2 : unit_rand (hd 0 (rands (advance 1 1 0 s)))).
+    { cbn [advance rands]. destruct (rands s) as [|r1 [|r2 rs]]; cbn [skipn hd].
+      - split; [apply Qle_refl | reflexivity].
+      - split; [apply Qle_refl | reflexivity].
+      - inversion Hr as [|? ? _ Hr']; inversion Hr' as [|? ? Hr2 _]; exact Hr2. }
+    destruct Hr2 as [Hlo Hhi].
+    set (r2 := hd 0 (rands (advance 1 1 0 s))) in *.
+    destruct (select_pos _ (rate s) (r2 * a) (x0 :: x1 :: rest) x0) as [Hin Hp].
+    + apply Qmult_le_0_compat; [exact Hlo | apply Qlt_le_weak; exact Hapos].
+    + rewrite <- Hsum. fold a. setoid_replace a with (1 * a) at 2 by ring.
+      apply Qmult_lt_compat_r; assumption.
+    + destruct (Hpos _ Hin Hp) as (h1 & h2 & h3).
+      repeat split; try assumption. exists 2%nat; split; [lia | reflexivity].
+Qed.
+
+Lemma select_In : forall A (f : A -> Q) xc l xs cur, In (select f xc xs cur l) (cur :: l).
+Proof.
+  intros A f xc. induction l as [|x l IH]; intros xs cur; cbn [select]; [left; reflexivity|].
+  destruct (Qltb xc (xs + f x)); [right; left; reflexivity|].
+  right. exact (IH (Qred (xs + f x)) x).
+Qed.
+
+Lemma select_In' : forall A (f : A -> Q) xc l xs cur, In cur l -> In (select f xc xs cur l) l.
+Proof. intros A f xc l xs cur H. destruct (select_In A f xc l xs cur) as [E|E]; [rewrite <- E; exact H | exact E]. Qed.
+
+(* with no hypothesis at all: a registered transition is chosen and only the oracle moves *)
+Lemma stoch_select_shape : forall s x dt s3, stoch_select s = Some (x, dt, s3) ->
+  In x (all_events tb) /\ exists nr, (nr <= 2)%nat /\ s3 = advance nr 1 0 s.
+Proof.
+  intros s x dt s3. unfold stoch_select.
+  rewrite next_rand_adv, next_ln_adv, advance_advance. cbn [Nat.add].
+  destruct (transitions tb) as [|x0 rest] eqn:Etr; [discriminate|].
+  destruct rest as [|x1 rest].
+  - intros E; inversion E; subst. split; [apply In_transitions; rewrite Etr; left; reflexivity|].
+    exists 1%nat; split; [lia | reflexivity].
+  - rewrite next_rand_adv, advance_advance. cbn [Nat.add].
+    set (sel := select _ _ _ _ _).
+    assert (Hs : In sel (x0 :: x1 :: rest)) by (apply select_In'; left; reflexivity).
+    clearbody sel. intros E; inversion E; subst. split.
+    + apply In_transitions. rewrite Etr. exact Hs.
+    + exists 2%nat; split; [lia | reflexivity].
+Qed.
+
+(* records of a whole Gillespie run; Pev is what is known of every chosen transition *)
+Definition stoch_rec (Pev : nat * nat * event -> Prop) (o : obs) : Prop :=
+  match o with
+  | OHandler _ _ _ _ m => m = None \/ m = Some true
+  | OTap _ pi n _ => (exists k, n = NPost k) \/ (exists j ev, n = NEv pi j /\ Pev (pi, j, ev))
+  | _ => True
+  end.
+
+Lemma posted_stoch : forall Pev t o, posted_rec t o -> stoch_rec Pev o.
+Proof.
+  intros Pev t o; destruct o; simpl; tauto.
+Qed.
+
+Lemma Forall_skipn : forall A (P : A -> Prop) n l, Forall P l -> Forall P (skipn n l).
+Proof.
+  intros A P. induction n as [|n IH]; intros l H; [exact H|].
+  destruct l as [|x l]; [constructor|]. inversion H; subst. apply IH; assumption.
+Qed.
+
+Section StochGen.
+(* IR: an invariant of the stream of uniform variates; Pev: the fact established at each selection *)
+Variable IR : list Q -> Prop.
+Variable Pev : nat * nat * event -> Prop.
+Hypothesis IR_skipn : forall n l, IR l -> IR (skipn n l).
+Hypothesis Hsel : forall s x dt s3, IR (rands s) -> Qeq_bool (sum_rates s (transitions tb)) 0 = false ->
+  stoch_select s = Some (x, dt, s3) -> Pev x.
+
+Lemma stoch_loop_gen : forall pf fuel t ev s, IR (rands s) ->
+  ext (stoch_rec Pev) s (snd (stoch_loop tb pf fuel t ev s)).
+Proof.
+  intros pf. induction fuel as [|f IH]; intros t ev s Hr.
+  - simpl. apply ext_same_out; reflexivity.
+  - rewrite stoch_loop_S.
+    destruct (at_equil t s); [apply ext_refl|].
+    destruct (Qeq_bool (sum_rates s (transitions tb)) 0) eqn:Ha.
+    + unfold next_pending_time. cbv zeta.
+      destruct (head (queue (discard s))) as [h|]; cbn [option_map]; [|apply ext_same_out; reflexivity].
+      destruct (run_pending_spec pf (e_time h) 0%nat (discard s)) as [[O1 _] E].
+      destruct (run_pending tb pf (e_time h) 0 (discard s)) as [n s''].
+      cbn [snd] in *.
+      apply (ext_trans _ _ s'').
+      * apply (ext_trans _ _ (discard s)); [apply ext_same_out; reflexivity|].
+        exact (ext_impl _ _ _ _ (posted_stoch Pev (e_time h)) E).
+      * apply IH. rewrite O1. exact Hr.
+    + destruct (stoch_select s) as [[[x dt] s3]|] eqn:Esel; [|apply ext_same_out; reflexivity].
+      assert (Hp := Hsel s x dt s3 Hr Ha Esel).
+      destruct (stoch_select_shape s x dt s3 Esel) as (_ & nr & _ & Es3).
+      cbv zeta.
+      destruct (run_pending_spec pf (Qred (t + dt)) 0%nat s3) as [[O1 [_ O3]] E].
+      destruct (run_pending tb pf (Qred (t + dt)) 0 s3) as [n s4]. cbn [snd] in *.
+      assert (E04 : ext (stoch_rec Pev) s s4).
+      { apply (ext_trans _ _ s3); [apply ext_same_out; subst s3; reflexivity|].
+        exact (ext_impl _ _ _ _ (posted_stoch Pev _) E). }
+      assert (Hr4 : IR (rands s4)).
+      { rewrite O1. subst s3. cbn [advance rands]. apply IR_skipn; exact Hr. }
+      set (s5 := set_clock (Qred (t + dt)) s4).
+      destruct (locus s5 (ev_locus (snd x))) as [|e0 l0] eqn:El.
+      * rewrite (stoch_fire_empty x _ _ s5 El).
+        apply (ext_trans _ _ s5); [apply (ext_trans _ _ s4); [exact E04 | apply ext_same_out; reflexivity]|].
+        apply IH. exact Hr4.
+      * destruct (stoch_fire_member x (Qred (t + dt)) (ev + n)%nat s5) as [e [He Ef]]; [rewrite El; discriminate|].
+        rewrite Ef. destruct x as [[pi j] evt]. cbn [snd] in *.
+        destruct (fire_event_spec pi j evt (Qred (t + dt)) e (advance 0 0 1 s5)) as [F [l [A Eo]]].
+        set (s6 := fire_event tb (pi, j, evt) (Qred (t + dt)) e (advance 0 0 1 s5)) in *.
+        apply (ext_trans _ _ s6).
+        -- apply (ext_trans _ _ s4); [exact E04|].
+           exists (OTap (Qred (t + dt)) pi (NEv pi j) e :: l ++
+                   [OHandler (ev_prog evt) (Qred (t + dt)) (clock (advance 0 0 1 s5)) e (Some true)]).
+           split.
+           ++ rewrite Eo. change (locus (advance 0 0 1 s5) (ev_locus evt)) with (locus s5 (ev_locus evt)).
+              rewrite (proj2 (mem_In e _) He). cbn [app]. rewrite <- app_assoc. reflexivity.
+           ++ constructor; [right; exists j, evt; split; [reflexivity | exact Hp]|].
+              apply Forall_app; split; [|repeat constructor; right; reflexivity].
+              eapply Forall_impl; [|exact A]. intros o; destruct o; simpl; tauto.
+        -- apply IH. destruct F as (_ & F2 & _). rewrite F2. cbn [advance rands]. exact Hr4.
+Qed.
+End StochGen.
+
+Lemma act_stoch : forall Pev o, act_obs o -> stoch_rec Pev o.
+Proof. intros Pev o; destruct o; simpl; tauto. Qed.
+
+(* set-up: the processes' set-up actions only produce action records *)
+Lemma setup_state_out : forall rs ls ds,
+  Forall act_obs (out (setup_state tb rs ls ds)) /\ rands (setup_state tb rs ls ds) = rs.
+Proof.
+  intros rs ls ds. unfold setup_state.
+  set (s0 := {| clock := 0; nextid := 0; queue := []; loci := init_loci tb; world := t_world tb; ids := []; out := [];
+                rands := rs; lns := ls; draws := ds; stuck := false |}).
+  assert (H0 : Forall act_obs (out s0) /\ rands s0 = rs) by (split; [constructor | reflexivity]).
+  generalize 0%nat. revert H0. generalize s0. clear s0.
+  induction (t_procs tb) as [|p ps IH]; intros s0 H0 n; cbn [fold_left fst snd]; [exact H0|].
+  apply IH. destruct (run_actions_spec n 0 (EN 0) (p_setup p) s0) as [(_ & F2 & _) E]. split.
+  - exact (ext_Forall _ _ _ E (proj1 H0)).
+  - rewrite F2. exact (proj2 H0).
+Qed.
+
+(* ------------------------------------------------------------------ whole runs *)
+Lemma stoch_run_out : forall pf fuel rs ls ds,
+  r_out (stoch_run tb pf fuel rs ls ds) = rev (out (snd (stoch_loop tb pf fuel 0 0 (setup_state tb rs ls ds)))).
+Proof.
+  intros. unfold stoch_run. destruct (stoch_loop tb pf fuel 0 0 (setup_state tb rs ls ds)) as [[t ev] s]. reflexivity.
+Qed.
+
+(* unconditional: handlers are called on members, taps name registered events *)
+Lemma stoch_run_member : forall pf fuel rs ls ds,
+  Forall (stoch_rec (fun x => In x (all_events tb))) (r_out (stoch_run tb pf fuel rs ls ds)).
+Proof.
+  intros pf fuel rs ls ds. rewrite stoch_run_out. apply Forall_rev.
+  eapply ext_Forall.
+  - apply (stoch_loop_gen (fun _ => True)); [tauto | | exact I].
+    intros s x dt s3 _ _ E. exact (proj1 (stoch_select_shape s x dt s3 E)).
+  - eapply Forall_impl; [apply act_stoch|]. exact (proj1 (setup_state_out rs ls ds)).
+Qed.
+
+(* with non-negative probabilities and uniform variates in [0,1): only events of positive probability fire *)
+Lemma stoch_run_positive : nonneg_table -> forall pf fuel rs ls ds, Forall unit_rand rs ->
+  Forall (stoch_rec (fun x => In x (all_events tb) /\ 0 < ev_p (snd x))) (r_out (stoch_run tb pf fuel rs ls ds)).
+Proof.
+  intros Hnn pf fuel rs ls ds Hr. rewrite stoch_run_out. apply Forall_rev.
+  eapply ext_Forall.
+  - apply (stoch_loop_gen (Forall unit_rand)).
+    + intros n l; apply Forall_skipn.
+    + intros s x dt s3 Hrs Ha E. destruct (stoch_select_pos s x dt s3 Hnn Hrs Ha E) as (h1 & h2 & _). split; assumption.
+    + rewrite (proj2 (setup_state_out rs ls ds)). exact Hr.
+  - eapply Forall_impl; [apply act_stoch|]. exact (proj1 (setup_state_out rs ls ds)).
+Qed.
 
 End KM.
